@@ -129,6 +129,7 @@ func runC05(c *Ctx) {
 	R.Explanation += " Also decided (R3): the writer is marked closed only by a call that completes - after the close is registered or performed no return refuses the call with a sentinel error."
 	R.Trusted = []string{"go/types + go/ssa"}
 
+	c.readMessageHandled("C05.R1")
 	// ---------- R1
 	hsq := c.mustMethod("C05.R1", "wire", "Session", "handleSimpleQuery")
 	if hsq != nil {
@@ -284,6 +285,12 @@ func (c *Ctx) c05Writer() {
 					}
 				}
 			}
+		}
+		// the writer is closed only by a call that emits the completion: a method that closes without being able to emit
+		// anything ends the statement without CommandComplete
+		primitive := len(fn.Blocks) == 1 && !token.IsExported(fn.Name()) && len(c.P.CallSitesOf(fn)) > 0 // the close() helper itself
+		if len(closers) > 0 && !reach[fn] && !primitive {
+			R.Fail("C05.R3", fkey(fn)+":closes-without-emitting", c.at(closers[0]), "completion emits exactly one CommandComplete: the writer is closed by the call that emits it", fname(fn)+" marks the writer closed but can emit no message: after it a statement can no longer be completed (Complete fails with ErrClosedWriter), so a handler that announces an empty result and then completes ends its statement without CommandComplete (T E Z instead of T C Z)")
 		}
 		for _, ci := range closers {
 			after := reachableAvoiding(ci.Block(), func(*ssa.BasicBlock) bool { return false })
@@ -462,8 +469,23 @@ func (c *Ctx) c05Writer() {
 			if mi, ok := arg.(*ssa.MakeInterface); ok {
 				arg = mi.X
 			}
+			site := ssa.Instruction(ci)
+			// a helper that only runs the statement receives the writer from its single caller
+			if p, isParam := core.Strip(arg).(*ssa.Parameter); isParam {
+				if sites := c.P.CallSitesOf(fn); len(sites) == 1 {
+					for i, q := range fn.Params {
+						if q == p && i < len(sites[0].Common().Args) {
+							arg = sites[0].Common().Args[i]
+							if mi, ok := arg.(*ssa.MakeInterface); ok {
+								arg = mi.X
+							}
+							site = sites[0]
+						}
+					}
+				}
+			}
 			call, ok := core.Strip(arg).(*ssa.Call)
-			fresh := ok && core.StaticCallee(call) == ndw && call.Block() == ci.Block()
+			fresh := ok && core.StaticCallee(call) == ndw && call.Block() == site.Block()
 			R.Check(fresh, "C05.R3", fkey(fn)+":fresh-writer-per-statement", c.at(ci), "every statement invocation receives a result writer created for that invocation", "argument is the result of NewDataWriter called in the same block", "the DataWriter passed to the statement function is not a fresh NewDataWriter result: state (closed, written) leaks between statements")
 		}
 	}
